@@ -85,7 +85,8 @@ def gen_op(rng, recipe, kind, allow=None, p_each=0.3):
         else:
             joint = recipe["n"] + t
             b = bundles.gen_bundle(rng, joint, allow=allow, p_each=p_each)
-        return {"op": "predict", "seed": rng.randrange(1 << 30), "t": t, "bundle": b, "lik": rng.random() < 0.25, "grad": rng.random() < 0.3}
+        # tb: batch shape of the test inputs (a non-batch model evaluated on a batch of test sets)
+        return {"op": "predict", "seed": rng.randrange(1 << 30), "t": t, "tb": rng.choice([[], [], [], [2], [3]]), "bundle": b, "lik": rng.random() < 0.25, "grad": rng.random() < 0.3}
     if kind in ("train", "eval", "kl", "objective"):
         return {"op": kind, "seed": rng.randrange(1 << 30)}
     if kind == "sub_mode":
@@ -128,7 +129,10 @@ def gen_op(rng, recipe, kind, allow=None, p_each=0.3):
 def test_args(recipe, op):
     d = recipe["d"]
     batch = recipe.get("batch", []) if recipe["family"] != "variational" else []
-    xs = zoo.rand(op["seed"], *batch, op["t"], d) * 1.2 - 0.1
+    tb = op.get("tb") or []
+    if batch or recipe["family"] == "hadamard":
+        tb = []
+    xs = zoo.rand(op["seed"], *tb, *batch, op["t"], d) * 1.2 - 0.1
     if recipe["family"] == "hadamard":
         return (xs, torch.randint(0, recipe["tasks"], (op["t"], 1), generator=zoo.gen(op["seed"] + 9)))
     return (xs,)
